@@ -58,7 +58,7 @@ FAMILIES = ["place", "chain", "minimise", "bitfield", "objects", "route",
 
 
 def plan(tier):
-    n = 80 if tier == "quick" else 2500
+    n = 320 if tier == "quick" else 25000
     return [(f, n) for f in FAMILIES]
 
 
